@@ -110,9 +110,13 @@ def work_c02(prop, tier, seed, widx, nworkers):
     # fault-free runs of larger programs (nested recurrent subgraphs, shared cases, chained one-ofs): termination
     # is required there as well and the single-fault programs above are too small to contain these shapes
     big = [gen.profile(p_rec=0.5, p_rec_nested=0.5, p_sw=0.15, p_oneof=0.15, n_max=11, p_fail=0.1),
-           gen.profile(p_sw=0.35, p_oneof=0.3, p_rec=0.15, p_share_lazy=0.4, n_max=11, p_fail=0.2)]
-    for i in range(60 if tier == 'quick' else 700):
-        prog = gen.gen_program(rng, big[i % 2])
+           gen.profile(p_sw=0.35, p_oneof=0.3, p_rec=0.15, p_share_lazy=0.4, n_max=11, p_fail=0.2),
+           # one-of heavy: shared lazies (a node that is a case and a candidate's dependency ...), containment and
+           # deep-chain shapes
+           gen.profile(p_oneof=0.4, p_sw=0.25, p_rec=0.1, p_share_lazy=0.4, p_share_cand=0.3, p_reuse_lazy=0.3,
+                       p_global_share=0.35, p_deep_chain=0.3, p_contain_shape=0.3, p_lazy_fail_shape=0.25, n_max=12, max_depth=4, p_fail=0.25)]
+    for i in range(90 if tier == 'quick' else 1050):
+        prog = gen.gen_program(rng, big[i % 3])
         _tagcount(acc, prog)
         acc.programs += 1
         built = harness.Built(prog)
